@@ -1,22 +1,913 @@
 import Dasp.Lemmas.Ring
-/-! # C06 (first cut, being extended) -/
+/-!
+# C06 — Bounded and Fixed ring buffers behave exactly as FIFO queues and delay lines
+
+Property text (properties.jsonl, C06): *Starting from any valid state over any capacity, every
+sequence of operations on a bounded ring buffer (push, pop, drain, indexed read/write,
+iteration, slice views) returns exactly what an ideal capacity-bounded queue returns: push
+appends and, only when full, evicts and returns the oldest element, pop removes the oldest,
+and index i, iteration and the two slices concatenated present the live elements oldest-first
+with len, is_empty, is_full and max_len in agreement.  A fixed ring buffer of length N >= 1
+keeps length N under any history of push, set_first, indexed access and iteration: each push
+returns the element at index 0 and makes the pushed element the newest at index N-1, so a push
+returns exactly the value pushed N pushes earlier (or the initial content), indexing wraps
+modulo N, and plain, looping and mutable iteration and the slice pair all agree on
+oldest-first order.  No operation of either buffer reads or writes outside the backing slice
+or exposes a slot that holds no live element.*
+
+`Dasp.Ring.Bounded` / `Dasp.Ring.Fixed` (Model/Ring.lean) transcribe
+`/repo/dasp_ring_buffer/src/lib.rs`; the same definitions are executed by `driver_c06` against
+the compiled crate on every run.  `Inv` is exactly what `from_raw_parts` asserts, so "for every
+`b` with `b.Inv`" is "from any valid state"; histories of any length follow by induction over
+the operation list (`run_refines`, `Fixed.run_refines`).  `abs` = the live elements oldest
+first.  Only property theorems and non-vacuity examples live in this file.
+-/
 namespace Dasp.Props.C06
 open Dasp.Ring
+
 variable {α : Type} [Inhabited α]
 
-theorem pop_inv (b : Bounded α) (h : b.Inv) : (b.pop).1.Inv := by
-  unfold Bounded.pop Bounded.Inv Bounded.nextStart Bounded.maxLen at *
-  split <;> simp_all <;> (try split) <;> omega
+/-! ## The ideal capacity-bounded FIFO queue (the specification, three lines per operation) -/
+
+/-- push appends and, only when full, evicts and returns the oldest element -/
+def qPush (cap : Nat) (q : List α) (x : α) : List α × Option α :=
+  if q.length = cap then (q.tail ++ [x], q.head?) else (q ++ [x], none)
+
+/-- forget what is representation and not content: the slice pair is read concatenated,
+    raw parts only through the length -/
+def norm : Obs α → Obs α
+  | .pair a b => .list (a ++ b)
+  | .raw _ l => .nat l
+  | o => o
+
+/-- one operation on the ideal queue `q` of capacity `cap`: new queue and result -/
+def qStep (cap : Nat) (q : List α) : BOp α → List α × Obs α
+  | .push x => ((qPush cap q x).1, .opt (qPush cap q x).2)
+  | .pop => (q.tail, .opt q.head?)
+  | .get i => (q, .opt q[i]?)
+  | .getMut i x => (q.set i x, .opt q[i]?)
+  | .index i => (q, match q[i]? with | some v => .opt (some v) | none => .panic)
+  | .indexMut i x => (q.set i x, match q[i]? with | some v => .opt (some v) | none => .panic)
+  | .len => (q, .nat q.length)
+  | .isEmpty => (q, .bool (q.length == 0))
+  | .isFull => (q, .bool (q.length == cap))
+  | .maxLen => (q, .nat cap)
+  | .iter => (q, .list q)
+  | .slices => (q, .list q)
+  | .iterMut xs => (xs.take q.length ++ q.drop xs.length, .list q)
+  | .slicesMut xs => (xs.take q.length ++ q.drop xs.length, .list q)
+  | .drain k => (q.drop k, .list (q.take k))
+  | .extend xs => (xs.foldl (fun q x => (qPush cap q x).1) q, .unit)
+  | .reparts => (q, .nat q.length)
+
+/-- a whole history on the ideal queue -/
+def qRun (cap : Nat) (q : List α) (ops : List (BOp α)) : List α × List (Obs α) :=
+  ops.foldl (fun acc op => ((qStep cap acc.1 op).1, acc.2 ++ [(qStep cap acc.1 op).2])) (q, [])
+
+/-! ## Bounded: basic facts about the abstraction -/
+
+theorem abs_length (b : Bounded α) : b.abs.length = b.len := by simp [Bounded.abs]
+
+/-- *"len, is_empty, is_full and max_len in agreement"* -/
+theorem len_agrees (b : Bounded α) :
+    b.length = b.abs.length ∧ b.isEmpty = (b.abs.length == 0) ∧
+    b.isFull = (b.abs.length == b.maxLen) := by
+  simp [Bounded.length, Bounded.isEmpty, Bounded.isFull, abs_length]
+
+/-- in a valid state the queue never holds more than the capacity -/
+theorem abs_le_cap (b : Bounded α) (h : b.Inv) : b.abs.length ≤ b.maxLen := by
+  rw [abs_length]; exact h.2
+
+/-- *"index i … present[s] the live elements oldest-first"*; beyond the live elements `get`
+    is `none`, i.e. no slot without a live element is exposed -/
+theorem get_abs (b : Bounded α) (i : Nat) : b.get i = b.abs[i]? := by
+  unfold Bounded.get Bounded.abs Bounded.maxLen
+  rw [window_getElem?]
+  by_cases h : i ≥ b.len
+  · simp [h, Nat.not_lt.mpr h]
+  · simp [h, Nat.lt_of_not_ge h]
+
+/-- **Counter-witness kept from round 0.** With the index expression used before fix commit
+    8b21f98 (`index % max_len`, ignoring `start`) the refinement is false: in the valid state
+    data=[4,2,3], start=1, len=3 (what pushes 1,2,3,4 into capacity 3 produce) the queue is
+    [2,3,4] but the old `get(0)` returns 4. -/
+theorem getOld_breaks_refinement :
+    ∃ b : Bounded Nat, b.Inv ∧ b.abs = [2, 3, 4] ∧ b.getOld 0 = some 4 ∧ b.getOld 0 ≠ b.abs[0]? :=
+  ⟨⟨[4, 2, 3], 1, 3⟩, by decide, by decide, by decide, by decide⟩
+
+/-- the old expression also exposed a slot holding no live element: start=1, len=1 -/
+theorem getOld_exposes_dead_slot :
+    ∃ b : Bounded Nat, b.Inv ∧ b.abs = [2] ∧ b.getOld 0 = some 99 :=
+  ⟨⟨[99, 2, 98], 1, 1⟩, by decide, by decide, by decide⟩
+
+/-! ## Bounded: every operation preserves the invariant and refines the ideal queue -/
+
+theorem push_maxLen (b : Bounded α) (x : α) : (b.push x).1.maxLen = b.maxLen := by
+  unfold Bounded.push Bounded.maxLen; split <;> simp
 
 theorem push_inv (b : Bounded α) (x : α) (h : b.Inv) : (b.push x).1.Inv := by
   unfold Bounded.push Bounded.Inv Bounded.nextStart Bounded.maxLen at *
   split <;> simp_all <;> (try split) <;> omega
 
-theorem get_abs (b : Bounded α) (i : Nat) : b.get i = b.abs[i]? := by
-  unfold Bounded.get Bounded.abs window Bounded.maxLen
-  by_cases h : i ≥ b.len
-  · simp [h]
-  · have h' : i < b.len := by omega
-    simp [h, h']
+/-- *"push appends and, only when full, evicts and returns the oldest element"* -/
+theorem push_refines (b : Bounded α) (x : α) (h : b.Inv) :
+    (b.push x).1.abs = (qPush b.maxLen b.abs x).1 ∧ (b.push x).2 = (qPush b.maxLen b.abs x).2 := by
+  obtain ⟨hs, hl⟩ := h
+  unfold Bounded.maxLen at hs hl
+  unfold Bounded.push qPush
+  rw [abs_length]
+  by_cases hf : b.len = b.maxLen
+  · have hf' : b.len = b.data.length := hf
+    simp only [hf, if_true]
+    constructor
+    · simp only [Bounded.abs, Bounded.nextStart, Bounded.maxLen, List.length_set]
+      have := window_rotate_push b.data b.start x hs
+      rw [hf']; simpa [nextSlot] using this
+    · rw [Bounded.abs, window_head? _ _ _ hs (by omega)]
+  · simp only [hf, if_false, and_true]
+    simp only [Bounded.abs, Bounded.maxLen]
+    exact window_push b.data b.start b.len x hs (by unfold Bounded.maxLen at hf; omega)
+
+theorem pop_maxLen (b : Bounded α) : (b.pop).1.maxLen = b.maxLen := by
+  unfold Bounded.pop Bounded.maxLen; split <;> simp
+
+theorem pop_inv (b : Bounded α) (h : b.Inv) : (b.pop).1.Inv := by
+  unfold Bounded.pop Bounded.Inv Bounded.nextStart Bounded.maxLen at *
+  split <;> simp_all <;> (try split) <;> omega
+
+/-- *"pop removes the oldest"* (and returns it; `none` exactly when empty), wrap case included -/
+theorem pop_refines (b : Bounded α) (h : b.Inv) :
+    (b.pop).1.abs = b.abs.tail ∧ (b.pop).2 = b.abs.head? := by
+  obtain ⟨hs, hl⟩ := h
+  unfold Bounded.maxLen at hs hl
+  unfold Bounded.pop
+  by_cases h0 : b.len = 0
+  · simp [h0, Bounded.abs, window]
+  · simp only [h0, if_false]
+    obtain ⟨m, hm⟩ : ∃ m, b.len = m + 1 := ⟨b.len - 1, by omega⟩
+    have := window_succ b.data b.start m hs
+    constructor
+    · simp only [Bounded.abs, Bounded.nextStart, Bounded.maxLen, hm, this, List.tail_cons]
+      simp
+    · simp only [Bounded.abs, hm, this, List.head?_cons]
+
+theorem getMutSet_inv (b : Bounded α) (i : Nat) (x : α) (h : b.Inv) : (b.getMutSet i x).1.Inv := by
+  unfold Bounded.getMutSet Bounded.Inv Bounded.maxLen at *
+  split <;> simp_all
+
+theorem getMutSet_maxLen (b : Bounded α) (i : Nat) (x : α) : (b.getMutSet i x).1.maxLen = b.maxLen := by
+  unfold Bounded.getMutSet Bounded.maxLen; split <;> simp
+
+/-- *"indexed … write"*: the reference returned by `get_mut(i)` is position `i` of the queue —
+    writing through it changes that element and nothing else; out of range nothing is exposed -/
+theorem getMutSet_refines (b : Bounded α) (i : Nat) (x : α) (h : b.Inv) :
+    (b.getMutSet i x).1.abs = b.abs.set i x ∧ (b.getMutSet i x).2 = b.abs[i]? := by
+  obtain ⟨hs, hl⟩ := h
+  unfold Bounded.maxLen at hs hl
+  have hg := get_abs b i
+  unfold Bounded.get at hg
+  unfold Bounded.getMutSet
+  by_cases hi : i ≥ b.len
+  · simp only [hi, if_true] at hg ⊢
+    refine ⟨?_, hg⟩
+    rw [List.set_eq_of_length_le (by rw [abs_length]; exact hi)]
+  · simp only [hi, if_false] at hg ⊢
+    refine ⟨?_, hg⟩
+    simp only [Bounded.abs, Bounded.maxLen, List.length_set]
+    exact window_set_at b.data b.start b.len i x hs hl (by omega)
+
+/-- *"the two slices concatenated present the live elements oldest-first"* -/
+theorem slices_abs (b : Bounded α) (h : b.Inv) : b.slices.1 ++ b.slices.2 = b.abs := by
+  obtain ⟨hs, hl⟩ := h
+  unfold Bounded.maxLen at hs hl
+  unfold Bounded.slices Bounded.abs
+  simp only [List.length_drop]
+  by_cases hw : b.data.length - b.start ≤ b.len
+  · simp only [hw, if_true]
+    exact (window_split_wrap b.data b.start b.len hs hl hw).symm
+  · simp only [hw, if_false, List.take_zero, List.append_nil]
+    exact (window_split_contig b.data b.start b.len (by omega)).symm
+
+/-- *"iteration … present[s] the live elements oldest-first"* -/
+theorem iter_abs (b : Bounded α) (h : b.Inv) : b.iter = b.abs := slices_abs b h
+
+/-- the mutable slices of `slices_mut`/`iter_mut` are, in order, the slots of live elements 0,1,…
+    (same split as `slices`) -/
+theorem mutPos_slots (b : Bounded α) (h : b.Inv) :
+    b.mutPos.1 ++ b.mutPos.2 = (List.range' 0 b.len).map fun i => (b.start + i) % b.data.length := by
+  obtain ⟨hs, hl⟩ := h
+  unfold Bounded.maxLen at hs hl
+  unfold Bounded.mutPos
+  apply List.ext_getElem?
+  intro i
+  by_cases hw : b.data.length - b.start ≤ b.len
+  · simp only [hw, if_true, List.getElem?_append, List.length_range', List.getElem?_map,
+      List.getElem?_range']
+    by_cases h1 : i < b.data.length - b.start
+    · have : i < b.len := by omega
+      simp [h1, this, Nat.mod_eq_of_lt (show b.start + i < b.data.length by omega)]
+    · by_cases h2 : i < b.len
+      · have h3 : i - (b.data.length - b.start) < b.len - (b.data.length - b.start) := by omega
+        have e : (b.start + i) % b.data.length = i - (b.data.length - b.start) := by
+          rw [add_mod_wrap hs (by omega)]; split <;> omega
+        simp [h1, h2, h3, e]
+      · have h3 : ¬ i - (b.data.length - b.start) < b.len - (b.data.length - b.start) := by omega
+        simp [h1, h2, h3]
+  · simp only [hw, if_false, List.append_nil, List.getElem?_map, List.getElem?_range']
+    by_cases h2 : i < b.len
+    · simp [h2, Nat.mod_eq_of_lt (show b.start + i < b.data.length by omega)]
+    · simp [h2]
+
+/-- the mutable pair exposes the same elements as `slices` -/
+theorem mutPos_read (b : Bounded α) (h : b.Inv) :
+    (b.mutPos.1 ++ b.mutPos.2).map (fun p => b.data[p]!) = b.abs := by
+  rw [mutPos_slots b h]
+  simp [Bounded.abs, window, List.range_eq_range']
+
+theorem mutWrite_inv (b : Bounded α) (xs : List α) (h : b.Inv) :
+    (b.mutWrite xs).Inv ∧ (b.mutWrite xs).maxLen = b.maxLen := by
+  have hl : ∀ (ps : List Nat) (xs : List α) (d : List α), (writeAt d ps xs).length = d.length := by
+    intro ps
+    induction ps with
+    | nil => intro xs d; cases xs <;> rfl
+    | cons p ps ih =>
+      intro xs d
+      cases xs with
+      | nil => rfl
+      | cons x xs => simp [writeAt, ih]
+  constructor
+  · unfold Bounded.mutWrite Bounded.Inv Bounded.maxLen at *
+    simpa only [hl] using h
+  · unfold Bounded.mutWrite Bounded.maxLen
+    simp only [hl]
+
+/-- *"indexed read/write, iteration, slice views"*, mutable flavour: writing `xs` through
+    `iter_mut()` / `slices_mut()` overwrites the oldest `|xs|` live elements, in order, and
+    touches nothing else of the queue -/
+theorem mutWrite_refines (b : Bounded α) (xs : List α) (h : b.Inv) :
+    (b.mutWrite xs).abs = xs.take b.abs.length ++ b.abs.drop xs.length := by
+  have hl := (mutWrite_inv b xs h).2
+  obtain ⟨hs, hn⟩ := h
+  unfold Bounded.maxLen at hs hn hl
+  have hp := mutPos_slots b ⟨hs, hn⟩
+  rw [← overwrite_zero]
+  unfold Bounded.abs Bounded.mutWrite
+  simp only [hp]
+  exact window_writeAt b.data b.start b.len b.len 0 xs hs hn (by omega)
+
+theorem drainTake_spec (k : Nat) (b : Bounded α) (h : b.Inv) :
+    (Bounded.drainTake k b).1.Inv ∧ (Bounded.drainTake k b).1.maxLen = b.maxLen ∧
+    (Bounded.drainTake k b).1.abs = b.abs.drop k ∧ (Bounded.drainTake k b).2 = b.abs.take k := by
+  induction k generalizing b with
+  | zero => simp [Bounded.drainTake, h]
+  | succ k ih =>
+    have hp := pop_refines b h
+    have hi := pop_inv b h
+    have hm := pop_maxLen b
+    unfold Bounded.drainTake
+    rcases hpop : b.pop with ⟨b', o⟩
+    rw [hpop] at hp hi hm
+    simp only at hp hi hm
+    cases o with
+    | none =>
+      have he : b.abs = [] := by
+        cases hq : b.abs with
+        | nil => rfl
+        | cons a l => rw [hq] at hp; simp at hp
+      simp only
+      refine ⟨hi, hm, ?_, ?_⟩
+      · rw [hp.1, he]; simp
+      · rw [he]; simp
+    | some v =>
+      obtain ⟨i1, i2, i3, i4⟩ := ih b' hi
+      simp only
+      cases hq : b.abs with
+      | nil => rw [hq] at hp; simp at hp
+      | cons a l =>
+        rw [hq] at hp
+        simp only [List.tail_cons, List.head?_cons, Option.some.injEq] at hp
+        refine ⟨i1, by rw [i2, hm], ?_, ?_⟩
+        · rw [i3, hp.1]; simp
+        · rw [i4, hp.1, hp.2]; simp
+
+/-- *"drain"*: yields the oldest `min k len` elements in order and removes exactly those -/
+theorem drain_refines (k : Nat) (b : Bounded α) (h : b.Inv) :
+    (Bounded.drainTake k b).1.abs = b.abs.drop k ∧ (Bounded.drainTake k b).2 = b.abs.take k :=
+  ⟨(drainTake_spec k b h).2.2.1, (drainTake_spec k b h).2.2.2⟩
+
+theorem extend_spec (xs : List α) (b : Bounded α) (h : b.Inv) :
+    (b.extend xs).Inv ∧ (b.extend xs).maxLen = b.maxLen ∧
+    (b.extend xs).abs = xs.foldl (fun q x => (qPush b.maxLen q x).1) b.abs := by
+  induction xs generalizing b with
+  | nil => simp [Bounded.extend, h]
+  | cons x xs ih =>
+    obtain ⟨i1, i2, i3⟩ := ih (b.push x).1 (push_inv b x h)
+    simp only [Bounded.extend, List.foldl_cons] at i1 i2 i3 ⊢
+    refine ⟨i1, by rw [i2, push_maxLen], ?_⟩
+    rw [i3, push_maxLen, (push_refines b x h).1]
+
+/-- `into_raw_parts` followed by `from_raw_parts` accepts every reachable state unchanged
+    (the assertion at lib.rs:786-787 is exactly `Inv`) -/
+theorem fromRawParts_iff (s l : Nat) (d : List α) :
+    (∃ b, Bounded.fromRawParts s l d = some b) ↔ (⟨d, s, l⟩ : Bounded α).Inv := by
+  unfold Bounded.fromRawParts Bounded.Inv Bounded.maxLen
+  by_cases h1 : s < d.length <;> by_cases h2 : l ≤ d.length <;> simp [h1, h2]
+
+theorem reparts_id (b : Bounded α) (h : b.Inv) : Bounded.fromRawParts b.start b.len b.data = some b := by
+  unfold Bounded.fromRawParts
+  unfold Bounded.Inv Bounded.maxLen at h
+  simp [h.1, h.2]
+
+/-- every buffer a safe constructor returns is in a valid state, holding what the
+    constructor's documentation says (`from_full`: all of `data`; `From`: nothing) -/
+theorem constructors_valid (d : List α) (s l : Nat) (b : Bounded α) :
+    (Bounded.fromRawParts s l d = some b → b.Inv ∧ b = ⟨d, s, l⟩) ∧
+    (Bounded.fromFull d = some b → b.Inv ∧ b.abs = d) ∧
+    (Bounded.fromEmpty d = some b → b.Inv ∧ b.abs = []) := by
+  refine ⟨?_, ?_, ?_⟩
+  · intro hb
+    unfold Bounded.fromRawParts at hb
+    by_cases h1 : s < d.length <;> by_cases h2 : l ≤ d.length <;> simp [h1, h2] at hb
+    subst hb; exact ⟨⟨h1, h2⟩, rfl⟩
+  · intro hb
+    unfold Bounded.fromFull Bounded.fromRawParts at hb
+    by_cases h1 : 0 < d.length <;> simp [h1] at hb
+    subst hb
+    refine ⟨⟨h1, Nat.le_refl _⟩, ?_⟩
+    have := slices_abs (⟨d, 0, d.length⟩ : Bounded α) ⟨h1, Nat.le_refl _⟩
+    simp [Bounded.slices] at this
+    exact this.symm
+  · intro hb
+    unfold Bounded.fromEmpty Bounded.fromRawParts at hb
+    by_cases h1 : 0 < d.length <;> simp [h1] at hb
+    subst hb
+    exact ⟨⟨h1, Nat.zero_le _⟩, by simp [Bounded.abs, window]⟩
+
+/-- **C06, Bounded, one step from every valid state.** Every public operation keeps the state
+    valid, keeps the capacity, and returns exactly what the ideal capacity-bounded queue returns
+    while transforming the live elements exactly as the ideal queue is transformed. -/
+theorem step_refines (b : Bounded α) (h : b.Inv) (op : BOp α) :
+    (b.step op).1.Inv ∧ (b.step op).1.maxLen = b.maxLen ∧
+    (b.step op).1.abs = (qStep b.maxLen b.abs op).1 ∧
+    norm (b.step op).2 = (qStep b.maxLen b.abs op).2 := by
+  cases op with
+  | push x =>
+    exact ⟨push_inv b x h, push_maxLen b x, (push_refines b x h).1, by simp [Bounded.step, qStep, norm, (push_refines b x h).2]⟩
+  | pop =>
+    exact ⟨pop_inv b h, pop_maxLen b, (pop_refines b h).1, by simp [Bounded.step, qStep, norm, (pop_refines b h).2]⟩
+  | get i => simp [Bounded.step, qStep, norm, h, get_abs]
+  | getMut i x =>
+    exact ⟨getMutSet_inv b i x h, getMutSet_maxLen b i x, (getMutSet_refines b i x h).1,
+      by simp [Bounded.step, qStep, norm, (getMutSet_refines b i x h).2]⟩
+  | index i =>
+    refine ⟨h, rfl, rfl, ?_⟩
+    simp only [Bounded.step, qStep, get_abs]
+    cases b.abs[i]? <;> rfl
+  | indexMut i x =>
+    have h1 := getMutSet_inv b i x h
+    have h2 := getMutSet_maxLen b i x
+    have h3 := getMutSet_refines b i x h
+    simp only [Bounded.step, qStep]
+    rcases hg : b.getMutSet i x with ⟨b', o⟩
+    rw [hg] at h1 h2 h3
+    simp only at h1 h2 h3
+    cases o with
+    | some v => exact ⟨h1, h2, h3.1, by rw [← h3.2]; rfl⟩
+    | none =>
+      refine ⟨h, rfl, ?_, by rw [← h3.2]; rfl⟩
+      simp only
+      rw [List.set_eq_of_length_le]
+      exact Nat.le_of_not_lt fun hlt => by simp [List.getElem?_eq_getElem hlt] at h3
+  | len => simp [Bounded.step, qStep, norm, h, (len_agrees b).1]
+  | isEmpty => simp [Bounded.step, qStep, norm, h, (len_agrees b).2.1]
+  | isFull => simp [Bounded.step, qStep, norm, h, (len_agrees b).2.2]
+  | maxLen => simp [Bounded.step, qStep, norm, h]
+  | iter => simp [Bounded.step, qStep, norm, h, iter_abs b h]
+  | slices => simp [Bounded.step, qStep, norm, h, slices_abs b h]
+  | iterMut xs =>
+    exact ⟨(mutWrite_inv b xs h).1, (mutWrite_inv b xs h).2, mutWrite_refines b xs h,
+      by simp [Bounded.step, qStep, norm, iter_abs b h]⟩
+  | slicesMut xs =>
+    exact ⟨(mutWrite_inv b xs h).1, (mutWrite_inv b xs h).2, mutWrite_refines b xs h,
+      by simp [Bounded.step, qStep, norm, slices_abs b h]⟩
+  | drain k =>
+    obtain ⟨i1, i2, i3, i4⟩ := drainTake_spec k b h
+    exact ⟨i1, i2, i3, by simp [Bounded.step, qStep, norm, i4]⟩
+  | extend xs =>
+    obtain ⟨i1, i2, i3⟩ := extend_spec xs b h
+    exact ⟨i1, i2, i3, rfl⟩
+  | reparts =>
+    simp [Bounded.step, qStep, norm, reparts_id b h, h, abs_length]
+
+/-- **C06, Bounded, every history.** *"Starting from any valid state over any capacity, every
+    sequence of operations … returns exactly what an ideal capacity-bounded queue returns."*
+    By induction over the operation list: the final state is valid, has the same capacity,
+    holds the ideal queue's content, and every observation along the way is the ideal one. -/
+theorem run_refines (ops : List (BOp α)) (b : Bounded α) (h : b.Inv) :
+    (b.run ops).1.Inv ∧ (b.run ops).1.maxLen = b.maxLen ∧
+    (b.run ops).1.abs = (qRun b.maxLen b.abs ops).1 ∧
+    (b.run ops).2.map norm = (qRun b.maxLen b.abs ops).2 := by
+  suffices H : ∀ (ops : List (BOp α)) (b0 : Bounded α) (o1 o2 : List (Obs α)), b0.Inv →
+      o1.map norm = o2 →
+      let r := ops.foldl (fun acc op => ((acc.1.step op).1, acc.2 ++ [(acc.1.step op).2])) (b0, o1)
+      let q := ops.foldl (fun acc op => ((qStep b0.maxLen acc.1 op).1, acc.2 ++ [(qStep b0.maxLen acc.1 op).2])) (b0.abs, o2)
+      r.1.Inv ∧ r.1.maxLen = b0.maxLen ∧ r.1.abs = q.1 ∧ r.2.map norm = q.2 from
+    H ops b [] [] h rfl
+  intro ops
+  induction ops with
+  | nil => intro b0 o1 o2 h0 ho; exact ⟨h0, rfl, rfl, ho⟩
+  | cons op ops ih =>
+    intro b0 o1 o2 h0 ho
+    obtain ⟨s1, s2, s3, s4⟩ := step_refines b0 h0 op
+    have := ih (b0.step op).1 (o1 ++ [(b0.step op).2]) (o2 ++ [(qStep b0.maxLen b0.abs op).2]) s1
+      (by simp [ho, s4])
+    simp only [List.foldl_cons]
+    rw [s2, s3] at this
+    exact this
+
+theorem getAcc_lt (b : Bounded α) (h : b.Inv) (j : Nat) : ∀ i ∈ b.getAcc j, i < b.data.length := by
+  intro i hi
+  unfold Bounded.getAcc at hi
+  split at hi
+  · simp at hi
+  · simp only [List.mem_singleton] at hi; subst hi
+    exact Nat.mod_lt _ (by have := h.1; unfold Bounded.maxLen at *; omega)
+
+theorem pushAcc_lt (b : Bounded α) (h : b.Inv) : ∀ i ∈ b.pushAcc, i < b.data.length := by
+  intro i hi
+  unfold Bounded.pushAcc at hi
+  split at hi <;> simp only [List.mem_singleton] at hi <;> subst hi
+  · exact h.1
+  · exact Nat.mod_lt _ (by have := h.1; unfold Bounded.maxLen at *; omega)
+
+theorem popAcc_lt (b : Bounded α) (h : b.Inv) : ∀ i ∈ b.popAcc, i < b.data.length := by
+  intro i hi
+  unfold Bounded.popAcc at hi
+  split at hi
+  · simp at hi
+  · simp only [List.mem_singleton] at hi; subst hi; exact h.1
+
+theorem drainAcc_lt (k : Nat) (b : Bounded α) (h : b.Inv) : ∀ i ∈ Bounded.drainAcc k b, i < b.data.length := by
+  induction k generalizing b with
+  | zero => simp [Bounded.drainAcc]
+  | succ k ih =>
+    intro i hi
+    unfold Bounded.drainAcc at hi
+    have hi' := pop_inv b h
+    have hm := pop_maxLen b
+    rcases hp : b.pop with ⟨b', o⟩
+    rw [hp] at hi hi' hm
+    cases o with
+    | none => exact popAcc_lt b h i hi
+    | some v =>
+      simp only [List.mem_append] at hi
+      rcases hi with hi | hi
+      · exact popAcc_lt b h i hi
+      · have := ih b' hi' i hi
+        unfold Bounded.maxLen at hm; simp only at hm; omega
+
+theorem extendAcc_lt (xs : List α) (b : Bounded α) (h : b.Inv) : ∀ i ∈ b.extendAcc xs, i < b.data.length := by
+  induction xs generalizing b with
+  | nil => simp [Bounded.extendAcc]
+  | cons x xs ih =>
+    intro i hi
+    simp only [Bounded.extendAcc, List.mem_append] at hi
+    rcases hi with hi | hi
+    · exact pushAcc_lt b h i hi
+    · have := ih (b.push x).1 (push_inv b x h) i hi
+      have hm := push_maxLen b x
+      unfold Bounded.maxLen at hm; omega
+
+/-- *"No operation … reads or writes outside the backing slice"*: in every valid state every
+    slot index an operation dereferences without a bounds check (`get_unchecked[_mut]` in push,
+    pop, get, get_mut, and through them Index, IndexMut, drain, extend) is inside the slice -/
+theorem accesses_in_bounds (b : Bounded α) (h : b.Inv) (op : BOp α) :
+    ∀ i ∈ b.stepAcc op, i < b.data.length := by
+  cases op with
+  | push x => exact pushAcc_lt b h
+  | pop => exact popAcc_lt b h
+  | get j => exact getAcc_lt b h j
+  | getMut j x => exact getAcc_lt b h j
+  | index j => exact getAcc_lt b h j
+  | indexMut j x => exact getAcc_lt b h j
+  | drain k => exact drainAcc_lt k b h
+  | extend xs => exact extendAcc_lt xs b h
+  | _ => simp [Bounded.stepAcc]
+
+/-- …and every range Rust checks while building the slices (`split_at(start)`, `&end[..end_len]`,
+    `&start[..len]`) is inside its slice, so `slices`/`slices_mut`/`iter`/`iter_mut` never panic -/
+theorem slice_checks_pass (b : Bounded α) (h : b.Inv) (op : BOp α) :
+    ∀ p ∈ b.stepChecks op, p.1 ≤ p.2 := by
+  obtain ⟨hs, hl⟩ := h
+  unfold Bounded.maxLen at hs hl
+  have : ∀ p ∈ b.sliceChecks, p.1 ≤ p.2 := by
+    intro p hp
+    unfold Bounded.sliceChecks at hp
+    simp only [List.mem_cons] at hp
+    rcases hp with rfl | hp
+    · simp; omega
+    · split at hp
+      · simp only [List.mem_singleton] at hp; subst hp; simp; omega
+      · simp only [List.mem_cons, List.mem_singleton, List.not_mem_nil, or_false] at hp
+        rcases hp with rfl | rfl <;> simp <;> omega
+  cases op <;> simp only [Bounded.stepChecks] <;> first | exact this | (intro p hp; cases hp)
+
+/-- *"…or exposes a slot that holds no live element"*: whatever an operation returns comes from
+    the ideal queue's content alone (`step_refines`), and reads never reach a dead slot:
+    `get i` beyond `len` is `none`, `Index` panics -/
+theorem no_dead_slot_exposed (b : Bounded α) (i : Nat) (hi : b.len ≤ i) :
+    b.get i = none ∧ (b.step (.index i)).2 = .panic ∧ (b.step (.indexMut i default)).2 = .panic ∧
+    (b.getMutSet i default).1 = b := by
+  have hg : b.get i = none := by simp [Bounded.get, hi]
+  simp [Bounded.step, hg, Bounded.getMutSet, hi]
+
+/-! ## Fixed: the ideal N-slot delay line -/
+
+/-- rotate left by `k ≤ length` -/
+def rotl (l : List α) (k : Nat) : List α := l.drop k ++ l.take k
+
+/-- one operation on the ideal delay line: `l` = its `n` elements oldest first; `first` is carried
+    only because `set_first` takes an absolute slot index (taken modulo `n`) and `into_raw_parts`
+    shows it -/
+def dStep (n : Nat) (l : List α) (first : Nat) : FOp α → (List α × Nat) × Obs α
+  | .push x => ((l.tail ++ [x], nextSlot n first), .opt l.head?)
+  | .get i => ((l, first), .opt l[i % n]?)
+  | .getMut i x => ((l.set (i % n) x, first), .opt l[i % n]?)
+  | .setFirst j => ((rotl l ((j % n + n - first) % n), j % n), .unit)
+  | .len => ((l, first), .nat n)
+  | .iter => ((l, first), .list l)
+  | .iterLoop m => ((l, first), .list ((List.range m).map fun k => l[k % n]!))
+  | .iterMut xs => ((xs.take n ++ l.drop xs.length, first), .list l)
+  | .slices => ((l, first), .list l)
+  | .slicesMut xs => ((xs.take n ++ l.drop xs.length, first), .list l)
+  | .extend xs => (xs.foldl (fun s x => (s.1.tail ++ [x], nextSlot n s.2)) (l, first), .unit)
+  | .reparts => ((l, first), .nat first)
+
+def dRun (n : Nat) (l : List α) (first : Nat) (ops : List (FOp α)) : (List α × Nat) × List (Obs α) :=
+  ops.foldl (fun acc op => ((dStep n acc.1.1 acc.1.2 op).1, acc.2 ++ [(dStep n acc.1.1 acc.1.2 op).2])) ((l, first), [])
+
+namespace Fixed
+
+/-- *"keeps length N"*: the abstraction always has exactly `len` elements, and `N ≥ 1` -/
+theorem abs_length (f : Fixed α) : f.abs.length = f.len := by simp [Fixed.abs]
+
+theorem len_pos (f : Fixed α) (h : f.Inv) : 1 ≤ f.len := by unfold Fixed.Inv at h; omega
+
+/-- *"indexing wraps modulo N"*: `get i` is element `i % N` of the oldest-first order -/
+theorem get_abs (f : Fixed α) (h : f.Inv) (i : Nat) : some (f.get i) = f.abs[i % f.len]? := by
+  unfold Fixed.Inv Fixed.len at h
+  unfold Fixed.get Fixed.wrapped Fixed.abs Fixed.len
+  rw [window_getElem?]
+  simp only [Nat.mod_lt _ (show 0 < f.data.length by omega), if_true, Nat.add_mod_mod]
+
+theorem push_len (f : Fixed α) (x : α) : (f.push x).1.len = f.len := by simp [Fixed.push, Fixed.len]
+
+theorem push_inv (f : Fixed α) (x : α) (h : f.Inv) : (f.push x).1.Inv := by
+  unfold Fixed.push Fixed.Inv Fixed.len at *
+  simp only [List.length_set]
+  split <;> omega
+
+theorem push_first (f : Fixed α) (x : α) (h : f.Inv) : (f.push x).1.first = nextSlot f.len f.first := by
+  unfold Fixed.Inv Fixed.len at h
+  unfold Fixed.push nextSlot Fixed.len
+  simp only
+  by_cases h1 : f.first + 1 = f.data.length
+  · simp [h1]
+  · have : ¬ f.first + 1 ≥ f.data.length := by omega
+    simp [h1, this]
+
+/-- *"each push returns the element at index 0 and makes the pushed element the newest at index
+    N-1"*: the result is `abs[0]`, the new order is the old one without its head, `x` appended -/
+theorem push_refines (f : Fixed α) (x : α) (h : f.Inv) :
+    (f.push x).1.abs = f.abs.tail ++ [x] ∧ some (f.push x).2 = f.abs.head? := by
+  have hf := push_first f x h
+  unfold Fixed.Inv Fixed.len at h
+  constructor
+  · unfold Fixed.abs
+    rw [hf]
+    simp only [Fixed.push, Fixed.len, List.length_set]
+    exact window_rotate_push f.data f.first x h
+  · unfold Fixed.abs Fixed.len
+    rw [window_head? _ _ _ h (by omega)]
+    rfl
+
+/-- the pushed element is the newest, at index N-1 -/
+theorem push_newest (f : Fixed α) (x : α) (h : f.Inv) : (f.push x).1.abs[f.len - 1]? = some x := by
+  rw [(push_refines f x h).1]
+  have h1 := abs_length f
+  have h2 := len_pos f h
+  have h3 : f.abs.tail.length = f.len - 1 := by simp [h1]
+  rw [List.getElem?_append_right (by omega), h3]
+  simp
+
+theorem getMutSet_refines (f : Fixed α) (i : Nat) (x : α) (h : f.Inv) :
+    (f.getMutSet i x).1.Inv ∧ (f.getMutSet i x).1.len = f.len ∧ (f.getMutSet i x).1.first = f.first ∧
+    (f.getMutSet i x).1.abs = f.abs.set (i % f.len) x ∧ some (f.getMutSet i x).2 = f.abs[i % f.len]? := by
+  have hg := get_abs f h i
+  unfold Fixed.Inv Fixed.len at h
+  refine ⟨by simpa [Fixed.getMutSet, Fixed.Inv, Fixed.len] using h, by simp [Fixed.getMutSet, Fixed.len], rfl, ?_, hg⟩
+  unfold Fixed.getMutSet Fixed.wrapped Fixed.abs Fixed.len
+  simp only [List.length_set]
+  have hlt : i % f.data.length < f.data.length := Nat.mod_lt _ (by omega)
+  have := window_set_at f.data f.first f.data.length (i % f.data.length) x h (Nat.le_refl _) hlt
+  rw [Nat.add_mod_mod] at this
+  exact this
+
+/-- *"the slice pair … agree[s] on oldest-first order"* -/
+theorem slices_abs (f : Fixed α) (h : f.Inv) : f.slices.1 ++ f.slices.2 = f.abs := by
+  unfold Fixed.Inv Fixed.len at h
+  unfold Fixed.slices Fixed.abs Fixed.len
+  have := window_split_wrap f.data f.first f.data.length h (Nat.le_refl _) (by omega)
+  rw [this, List.take_take]
+  have e : min (f.data.length - (f.data.length - f.first)) f.first = f.first := by omega
+  rw [e]
+
+/-- *"looping … iteration"*: item `k` of `iter_loop` is element `k % N` of the oldest-first order,
+    for every `k` (a prefix of any length of the infinite cycle) -/
+theorem iterLoop_abs (f : Fixed α) (h : f.Inv) (m : Nat) :
+    f.iterLoop m = (List.range m).map fun k => f.abs[k % f.len]! := by
+  unfold Fixed.Inv Fixed.len at h
+  unfold Fixed.iterLoop
+  have hne : ¬ f.len = 0 := by unfold Fixed.len; omega
+  simp only [hne, if_false]
+  apply List.map_congr_left
+  intro k _
+  have hk : k % f.len < f.len := Nat.mod_lt _ (by unfold Fixed.len; omega)
+  have := window_getElem? f.data f.first f.len (k % f.len)
+  simp only [hk, if_true] at this
+  have e : f.abs[k % f.len]! = f.data[(f.first + k % f.len) % f.data.length]! := by
+    unfold Fixed.abs
+    rw [getElem!_def, this]
+  rw [e]
+  unfold Fixed.len
+  rw [Nat.add_mod_mod]
+
+/-- *"plain … iteration"* yields exactly the `N` elements oldest first -/
+theorem iter_abs (f : Fixed α) (h : f.Inv) : f.iter = f.abs := by
+  unfold Fixed.Inv Fixed.len at h
+  have hne : ¬ f.data.length = 0 := by omega
+  simp only [Fixed.iter, Fixed.iterLoop, Fixed.abs, window, Fixed.len, hne, if_false]
+
+/-- the chain `iter_mut` walks (the mutable slice pair) is the same order -/
+theorem iterChain_abs (f : Fixed α) (h : f.Inv) : f.iterChain = f.abs := slices_abs f h
+
+theorem mutPos_slots (f : Fixed α) (h : f.Inv) :
+    f.mutPos.1 ++ f.mutPos.2 = (List.range' 0 f.len).map fun i => (f.first + i) % f.data.length := by
+  have := Dasp.Props.C06.mutPos_slots (⟨f.data, f.first, f.data.length⟩ : Bounded α) ⟨h, Nat.le_refl _⟩
+  have e : f.data.length - (f.data.length - f.first) = f.first := by
+    unfold Fixed.Inv Fixed.len at h; omega
+  simpa [Bounded.mutPos, Fixed.mutPos, Fixed.len, e] using this
+
+theorem writeAt_length (ps : List Nat) (xs : List α) (d : List α) : (writeAt d ps xs).length = d.length := by
+  induction ps generalizing xs d with
+  | nil => cases xs <;> rfl
+  | cons p ps ih =>
+    cases xs with
+    | nil => rfl
+    | cons x xs => simp [writeAt, ih]
+
+/-- *"mutable iteration"*: writing `xs` through `iter_mut()`/`slices_mut()` overwrites the oldest
+    `|xs|` elements in order; length and `first` unchanged -/
+theorem mutWrite_refines (f : Fixed α) (xs : List α) (h : f.Inv) :
+    (f.mutWrite xs).Inv ∧ (f.mutWrite xs).len = f.len ∧ (f.mutWrite xs).first = f.first ∧
+    (f.mutWrite xs).abs = xs.take f.len ++ f.abs.drop xs.length := by
+  have hp := mutPos_slots f h
+  have hlen : (f.mutWrite xs).len = f.len := by simp [Fixed.mutWrite, Fixed.len, writeAt_length]
+  refine ⟨by unfold Fixed.Inv at *; rw [hlen]; exact h, hlen, rfl, ?_⟩
+  unfold Fixed.Inv Fixed.len at h
+  have := overwrite_zero f.abs xs
+  rw [abs_length] at this
+  rw [← this]
+  unfold Fixed.abs
+  rw [hlen]
+  unfold Fixed.mutWrite Fixed.len
+  simp only [hp, writeAt_length]
+  exact window_writeAt f.data f.first f.data.length f.data.length 0 xs h (Nat.le_refl _) (by omega)
+
+theorem rot_back {s t n : Nat} (hs : s < n) (ht : t < n) : (s + (t + n - s) % n) % n = t := by
+  by_cases hc : t + n - s < n
+  · rw [Nat.mod_eq_of_lt hc]
+    have e : s + (t + n - s) = t + n := by omega
+    rw [e, Nat.add_mod_right, Nat.mod_eq_of_lt ht]
+  · have e : (t + n - s) % n = t - s := by
+      rw [Nat.mod_eq_sub_mod (by omega), Nat.mod_eq_of_lt (by omega)]; omega
+    rw [e]
+    have e2 : s + (t - s) = t := by omega
+    rw [e2, Nat.mod_eq_of_lt ht]
+
+omit [Inhabited α] in
+theorem rotl_getElem? (l : List α) (k i : Nat) (hk : k ≤ l.length) (hi : i < l.length) :
+    (rotl l k)[i]? = l[(k + i) % l.length]? := by
+  unfold rotl
+  rw [List.getElem?_append, List.getElem?_drop, List.getElem?_take]
+  simp only [List.length_drop]
+  by_cases h1 : i < l.length - k
+  · simp [h1, Nat.mod_eq_of_lt (show k + i < l.length by omega)]
+  · have h2 : i - (l.length - k) < k := by omega
+    have e : (k + i) % l.length = i - (l.length - k) := by
+      rw [Nat.mod_eq_sub_mod (by omega), Nat.mod_eq_of_lt (by omega)]; omega
+    simp [h1, h2, e]
+
+/-- *"set_first"*: moves the read position to slot `j % N`; length stays `N` and the new order is
+    the old one rotated (no element is lost or duplicated) -/
+theorem setFirst_refines (f : Fixed α) (j : Nat) (h : f.Inv) :
+    (f.setFirst j).Inv ∧ (f.setFirst j).len = f.len ∧ (f.setFirst j).first = j % f.len ∧
+    (f.setFirst j).abs = rotl f.abs ((j % f.len + f.len - f.first) % f.len) := by
+  unfold Fixed.Inv Fixed.len at h
+  have hN : 0 < f.data.length := by omega
+  refine ⟨Nat.mod_lt _ hN, rfl, rfl, ?_⟩
+  apply List.ext_getElem?
+  intro i
+  unfold Fixed.setFirst Fixed.abs Fixed.len
+  simp only
+  by_cases hi : i < f.data.length
+  · rw [rotl_getElem? _ _ _ (by simp; exact Nat.le_of_lt (Nat.mod_lt _ hN)) (by simpa using hi)]
+    rw [window_getElem?, window_getElem?]
+    simp only [window_length, hi, if_true, Nat.mod_lt _ hN]
+    congr 2
+    -- (first + (k + i) % N) % N = (j % N + i) % N  with  k = (j % N + N - first) % N
+    have hj : j % f.data.length < f.data.length := Nat.mod_lt _ hN
+    have hk := rot_back h hj
+    rw [Nat.add_mod_mod, ← Nat.add_assoc, Nat.add_mod (f.first + _) i, hk, Nat.add_mod_mod]
+  · have h1 : (window f.data (j % f.data.length) f.data.length).length ≤ i := by simp; omega
+    have h2 : (rotl (window f.data f.first f.data.length) ((j % f.data.length + f.data.length - f.first) % f.data.length)).length ≤ i := by
+      simp [rotl]; omega
+    rw [List.getElem?_eq_none h1, List.getElem?_eq_none h2]
+
+theorem extend_spec (xs : List α) (f : Fixed α) (h : f.Inv) :
+    (f.extend xs).Inv ∧ (f.extend xs).len = f.len ∧
+    ((f.extend xs).abs, (f.extend xs).first) =
+      xs.foldl (fun s x => (s.1.tail ++ [x], nextSlot f.len s.2)) (f.abs, f.first) := by
+  induction xs generalizing f with
+  | nil => simp [Fixed.extend, h]
+  | cons x xs ih =>
+    obtain ⟨i1, i2, i3⟩ := ih (f.push x).1 (push_inv f x h)
+    simp only [Fixed.extend, List.foldl_cons] at i1 i2 i3 ⊢
+    refine ⟨i1, by rw [i2, push_len], ?_⟩
+    rw [i3, push_len, (push_refines f x h).1, push_first f x h]
+
+theorem reparts_id (f : Fixed α) (h : f.Inv) : Fixed.fromRawParts f.first f.data = some f := by
+  unfold Fixed.fromRawParts
+  unfold Fixed.Inv Fixed.len at h
+  simp [h]
+
+/-- `from_raw_parts` accepts exactly the valid states; in particular it rejects empty storage -/
+theorem fromRawParts_iff (s : Nat) (d : List α) :
+    (∃ f, Fixed.fromRawParts s d = some f) ↔ (⟨d, s⟩ : Fixed α).Inv ∧ 1 ≤ d.length := by
+  unfold Fixed.fromRawParts Fixed.Inv Fixed.len
+  by_cases h1 : s < d.length <;> simp [h1]
+  omega
+
+/-- **C06, Fixed, one step from every valid state**: validity and the length `N` are kept, and the
+    result and the new oldest-first order are those of the ideal delay line -/
+theorem step_refines (f : Fixed α) (h : f.Inv) (op : FOp α) :
+    (f.step op).1.Inv ∧ (f.step op).1.len = f.len ∧
+    ((f.step op).1.abs, (f.step op).1.first) = (dStep f.len f.abs f.first op).1 ∧
+    norm (f.step op).2 = (dStep f.len f.abs f.first op).2 := by
+  cases op with
+  | push x =>
+    refine ⟨push_inv f x h, push_len f x, ?_, ?_⟩
+    · simp [Fixed.step, dStep, (push_refines f x h).1, push_first f x h]
+    · simp [Fixed.step, dStep, norm, (push_refines f x h).2]
+  | get i => simp [Fixed.step, dStep, norm, h, get_abs f h i]
+  | getMut i x =>
+    obtain ⟨i1, i2, i3, i4, i5⟩ := getMutSet_refines f i x h
+    exact ⟨i1, i2, by simp [Fixed.step, dStep, i3, i4], by simp [Fixed.step, dStep, norm, i5]⟩
+  | setFirst j =>
+    obtain ⟨i1, i2, i3, i4⟩ := setFirst_refines f j h
+    exact ⟨i1, i2, by simp [Fixed.step, dStep, i3, i4], rfl⟩
+  | len => simp [Fixed.step, dStep, norm, h]
+  | iter => simp [Fixed.step, dStep, norm, h, iter_abs f h]
+  | iterLoop m => simp [Fixed.step, dStep, norm, h, iterLoop_abs f h m]
+  | iterMut xs =>
+    obtain ⟨i1, i2, i3, i4⟩ := mutWrite_refines f xs h
+    exact ⟨i1, i2, by simp [Fixed.step, dStep, i3, i4], by simp [Fixed.step, dStep, norm, iterChain_abs f h]⟩
+  | slices => simp [Fixed.step, dStep, norm, h, slices_abs f h]
+  | slicesMut xs =>
+    obtain ⟨i1, i2, i3, i4⟩ := mutWrite_refines f xs h
+    exact ⟨i1, i2, by simp [Fixed.step, dStep, i3, i4], by simp [Fixed.step, dStep, norm, slices_abs f h]⟩
+  | extend xs =>
+    obtain ⟨i1, i2, i3⟩ := extend_spec xs f h
+    exact ⟨i1, i2, i3, rfl⟩
+  | reparts => simp [Fixed.step, dStep, norm, reparts_id f h, h]
+
+/-- **C06, Fixed, every history.** *"A fixed ring buffer of length N >= 1 keeps length N under any
+    history of push, set_first, indexed access and iteration"* and every observation along any
+    history is the ideal delay line's. -/
+theorem run_refines (ops : List (FOp α)) (f : Fixed α) (h : f.Inv) :
+    (f.run ops).1.Inv ∧ (f.run ops).1.len = f.len ∧
+    ((f.run ops).1.abs, (f.run ops).1.first) = (dRun f.len f.abs f.first ops).1 ∧
+    (f.run ops).2.map norm = (dRun f.len f.abs f.first ops).2 := by
+  suffices H : ∀ (ops : List (FOp α)) (f0 : Fixed α) (o1 o2 : List (Obs α)), f0.Inv →
+      o1.map norm = o2 →
+      let r := ops.foldl (fun acc op => ((acc.1.step op).1, acc.2 ++ [(acc.1.step op).2])) (f0, o1)
+      let q := ops.foldl (fun acc op => ((dStep f0.len acc.1.1 acc.1.2 op).1, acc.2 ++ [(dStep f0.len acc.1.1 acc.1.2 op).2])) ((f0.abs, f0.first), o2)
+      r.1.Inv ∧ r.1.len = f0.len ∧ (r.1.abs, r.1.first) = q.1 ∧ r.2.map norm = q.2 from
+    H ops f [] [] h rfl
+  intro ops
+  induction ops with
+  | nil => intro f0 o1 o2 h0 ho; exact ⟨h0, rfl, rfl, ho⟩
+  | cons op ops ih =>
+    intro f0 o1 o2 h0 ho
+    obtain ⟨s1, s2, s3, s4⟩ := step_refines f0 h0 op
+    have := ih (f0.step op).1 (o1 ++ [(f0.step op).2]) (o2 ++ [(dStep f0.len f0.abs f0.first op).2]) s1
+      (by simp [ho, s4])
+    simp only [List.foldl_cons]
+    rw [s2, s3] at this
+    exact this
+
+/-- results of pushing `xs` one after the other -/
+def pushAll (f : Fixed α) : List α → Fixed α × List α
+  | [] => (f, [])
+  | x :: xs => ((pushAll (f.push x).1 xs).1, (f.push x).2 :: (pushAll (f.push x).1 xs).2)
+
+/-- the delay line as a whole: pushing `xs` returns the first `|xs|` elements of `abs ++ xs` and
+    leaves the last `N` -/
+theorem pushAll_spec (xs : List α) (f : Fixed α) (h : f.Inv) :
+    (pushAll f xs).1.Inv ∧ (pushAll f xs).2 = (f.abs ++ xs).take xs.length ∧
+    (pushAll f xs).1.abs = (f.abs ++ xs).drop xs.length := by
+  induction xs generalizing f with
+  | nil => simp [pushAll, h]
+  | cons x xs ih =>
+    obtain ⟨i1, i2, i3⟩ := ih (f.push x).1 (push_inv f x h)
+    obtain ⟨p1, p2⟩ := push_refines f x h
+    have hpos : f.abs ≠ [] := by
+      intro e; have := abs_length f; have := len_pos f h; rw [e] at *; simp at *; omega
+    obtain ⟨a, l, hal⟩ := List.exists_cons_of_ne_nil hpos
+    rw [hal] at p1 p2
+    simp only [List.tail_cons, List.head?_cons, Option.some.injEq] at p1 p2
+    simp only [pushAll]
+    refine ⟨i1, ?_, ?_⟩
+    · rw [i2, p1, p2, hal]; simp
+    · rw [i3, p1, hal]; simp
+
+/-- *"so a push returns exactly the value pushed N pushes earlier (or the initial content)"*, for
+    an arbitrary push number `k` (0-based) from an arbitrary valid state: the `k`-th push returns
+    initial element `k` while `k < N`, afterwards the value pushed `N` pushes earlier -/
+theorem kth_push_returns (xs : List α) (f : Fixed α) (h : f.Inv) (k : Nat) (hk : k < xs.length) :
+    (pushAll f xs).2[k]? = if k < f.len then f.abs[k]? else xs[k - f.len]? := by
+  rw [(pushAll_spec xs f h).2.1, List.getElem?_take, List.getElem?_append, abs_length]
+  simp [hk]
+
+/-- all slot indices `Fixed` dereferences (unchecked in `push`, checked in `get`/`get_mut`) are
+    inside the slice, and `split_at(first)` is in range -/
+theorem accesses_in_bounds (f : Fixed α) (h : f.Inv) (op : FOp α) :
+    (∀ i ∈ f.stepAcc op, i < f.data.length) ∧ (∀ p ∈ f.stepChecks op, p.1 ≤ p.2) := by
+  constructor
+  · cases op with
+    | push x => simpa [Fixed.stepAcc, Fixed.Inv, Fixed.len] using h
+    | get j => simp only [Fixed.stepAcc, Fixed.wrapped, List.mem_singleton]; intro i hi; subst hi; exact Nat.mod_lt _ (by unfold Fixed.Inv at h; omega)
+    | getMut j x => simp only [Fixed.stepAcc, Fixed.wrapped, List.mem_singleton]; intro i hi; subst hi; exact Nat.mod_lt _ (by unfold Fixed.Inv at h; omega)
+    | extend xs =>
+      simp only [Fixed.stepAcc]
+      induction xs generalizing f with
+      | nil => simp [Fixed.extendAcc]
+      | cons x xs ih =>
+        intro i hi
+        simp only [Fixed.extendAcc, List.mem_cons] at hi
+        rcases hi with rfl | hi
+        · exact h
+        · have := ih (f.push x).1 (push_inv f x h) i hi
+          have hm := push_len f x
+          unfold Fixed.len at hm; omega
+    | _ => simp [Fixed.stepAcc]
+  · have hle : f.first ≤ f.len := Nat.le_of_lt h
+    cases op <;> simp [Fixed.stepChecks] <;> exact hle
+
+end Fixed
+
+/-! ## Non-vacuity: every hypothesis is satisfiable on a concrete, wrapped, non-trivial state -/
+
+/-- a valid Bounded state whose live window wraps (start = 2 of 3, two live elements) -/
+example : (⟨[20, 99, 10], 2, 2⟩ : Bounded Nat).Inv ∧ (⟨[20, 99, 10], 2, 2⟩ : Bounded Nat).abs = [10, 20] := by
+  decide
+
+/-- a history through every kind of operation from that wrapped state, computed by the model;
+    `run_refines` applies to it (its hypothesis `Inv` holds by the example above) -/
+example :
+    ((⟨[20, 99, 10], 2, 2⟩ : Bounded Nat).run
+      [.slices, .push 30, .push 40, .get 0, .pop, .getMut 1 7, .slices, .iter, .isFull, .drain 1, .len, .index 5]).2
+    = [.pair [10] [20], .opt none, .opt (some 10), .opt (some 20), .opt (some 20), .opt (some 40), .pair [30, 7] [],
+       .list [30, 7], .bool false, .list [30], .nat 1, .panic] := by
+  decide
+
+example :
+    (qRun 3 [10, 20]
+      [.slices, .push 30, .push 40, .get 0, .pop, .getMut 1 7, .slices, .iter, .isFull, .drain 1, .len, .index (5 : Nat)]).2
+    = [.list [10, 20], .opt none, .opt (some 10), .opt (some 20), .opt (some 20), .opt (some 40), .list [30, 7],
+       .list [30, 7], .bool false, .list [30], .nat 1, (.panic : Obs Nat)] := by
+  decide
+
+/-- a valid Fixed state with first ≠ 0; more than N pushes: each returns what entered N pushes earlier -/
+example : (⟨[3, 1, 2], 1⟩ : Fixed Nat).Inv ∧ (⟨[3, 1, 2], 1⟩ : Fixed Nat).abs = [1, 2, 3] ∧
+    (Fixed.pushAll (⟨[3, 1, 2], 1⟩ : Fixed Nat) [4, 5, 6, 7, 8]).2 = [1, 2, 3, 4, 5] ∧
+    (Fixed.pushAll (⟨[3, 1, 2], 1⟩ : Fixed Nat) [4, 5, 6, 7, 8]).1.abs = [6, 7, 8] := by
+  decide
+
+example :
+    ((⟨[3, 1, 2], 1⟩ : Fixed Nat).run [.get 4, .setFirst 5, .slices, .iter, .iterLoop 5, .push 9, .getMut 3 0, .iter]).2
+    = [.opt (some 2), .unit, .pair [2] [3, 1], .list [2, 3, 1], .list [2, 3, 1, 2, 3], .opt (some 2),
+       .opt (some 3), .list [0, 1, 9]] := by
+  decide
 
 end Dasp.Props.C06
